@@ -199,9 +199,6 @@ def M.wok (m : M) : Bool := !(m.faults.testBit m.w)
 def M.logw (m : M) (k : ActK) (arg : Nat := 0) : M :=
   { m with w := m.w + 1, acts := m.acts ++ [⟨k, m.wok, arg⟩] }
 
-/-- one write call on an object other than the job -/
-def M.write (m : M) (k : ActK) (arg : Nat := 0) : Bool × M := (m.wok, m.logw k arg)
-
 def M.setStatus (m : M) (f : Status → Status) : M := { m with mem := { m.mem with status := f m.mem.status } }
 def M.setSpec (m : M) (f : Spec → Spec) : M := { m with mem := { m.mem with spec := f m.mem.spec } }
 
@@ -256,15 +253,14 @@ def deleteReservation (m : M) : Nat × M :=
   match m.env.resv with
   | none => (1, m)
   | some _ =>
-    let r := m.write .resvDelete
-    if r.1 then (0, { r.2 with env := { r.2.env with resv := none } }) else (2, r.2)
+    if m.wok then (0, { m.logw .resvDelete with env := { m.env with resv := none } }) else (2, m.logw .resvDelete)
 
 /-- `abortJobIfTimeout` -/
 def abortIfTimeout (m : M) : Res :=
   if m.mem.spec.ttl = 0 then .cont m else
   if m.env.now < m.mem.spec.ttl then .cont m else
-  let d := deleteReservation m
-  if d.1 = 2 then .stop d.2 else .stop (abortWith d.2 Rs.timeout)
+  if (deleteReservation m).1 = 2 then .stop (deleteReservation m).2
+  else .stop (abortWith (deleteReservation m).2 Rs.timeout)
 
 /-- `preparePendingJob` (+ `preparePodRef`) -/
 def preparePending (m : M) : Res :=
@@ -273,9 +269,9 @@ def preparePending (m : M) : Res :=
   match m.env.pod with
   | none => .stop (abortWith m Rs.missingPod)
   | some p =>
-    let r := (m.setSpec fun s => { s with podUID := p.uid }).jobUpdate
-    if !r.1 then .stop r.2 else
-    okOr (r.2.setStatus fun s => { s with phase := Ph.running }).statusUpdate
+    match (m.setSpec fun s => { s with podUID := p.uid }).jobUpdate with
+    | (false, m) => .stop m
+    | (true, m) => okOr (m.setStatus fun s => { s with phase := Ph.running }).statusUpdate
 
 /-- `requeueJobIfObjectLimiterFailed` -/
 def limiterRequeue (m : M) : Bool :=
@@ -288,10 +284,9 @@ def boundByOther (m : M) (pod : Option Pod) : Res :=
   | none => .stop (abortWith m Rs.missingResv)
   | some r =>
     if resvSucceeded r then
-      let other := match pod with
-        | none => true
-        | some p => !(r.owner != 0 && r.owner == p.uid)
-      if other then .stop (abortWith m Rs.forbidden) else .cont m
+      match pod with
+      | none => .stop (abortWith m Rs.forbidden)
+      | some p => if r.owner != 0 && r.owner == p.uid then .cont m else .stop (abortWith m Rs.forbidden)
     else .cont m
 
 /-- `evictPod`: `.cont` = (true, _, nil) -/
@@ -309,9 +304,9 @@ def evictPod (m : M) : Res :=
     else
     if (match cond with | some c => c.reason == Rs.evicting | none => false) then .stop m else
     (boundByOther m none).bind fun m =>
-    let r := m.evictCall p.uid
-    if !r.1 then .stop r.2 else
-    .stop (updateCondition r.2 ⟨CT.eviction, false, Rs.evicting, 0⟩).2
+    match m.evictCall p.uid with
+    | (false, m) => .stop m
+    | (true, m) => .stop (updateCondition m ⟨CT.eviction, false, Rs.evicting, 0⟩).2
 
 /-- `evictPodDirectly` -/
 def evictDirect (m : M) : Res :=
@@ -323,13 +318,12 @@ def createReservation (m : M) : M :=
   match m.env.pod with
   | none => abortWith m Rs.missingPod
   | some p =>
-    let r := m.write .resvCreate
-    if !r.1 then (updateCondition r.2 ⟨CT.resvCreated, false, Rs.failedCreate, 0⟩).2 else
-    let m := r.2
-    let m : M := match m.env.resv with
-      | some _ => m                                                   -- AlreadyExists → Get
-      | none => { m with env := { m.env with resv := some (newResv p) } }
-    ((m.setSpec fun s => { s with resvRef := true }).jobUpdate).2
+    if !m.wok then (updateCondition (m.logw .resvCreate) ⟨CT.resvCreated, false, Rs.failedCreate, 0⟩).2 else
+    match m.env.resv with
+    | some _ => (((m.logw .resvCreate).setSpec fun s => { s with resvRef := true }).jobUpdate).2   -- AlreadyExists → Get
+    | none =>
+      ((({ m.logw .resvCreate with env := { m.env with resv := some (newResv p) } } : M).setSpec
+        fun s => { s with resvRef := true }).jobUpdate).2
 
 /-- `setReservationOrder` -/
 def setReservationOrder (m : M) : Res :=
@@ -337,8 +331,8 @@ def setReservationOrder (m : M) : Res :=
   | none => .stop m
   | some r =>
     if r.orderLabel then .cont m else
-    let x := m.write .resvUpdate
-    if x.1 then .cont { x.2 with env := { x.2.env with resv := some { r with orderLabel := true } } } else .stop x.2
+    if m.wok then .cont { m.logw .resvUpdate with env := { m.env with resv := some { r with orderLabel := true } } }
+    else .stop (m.logw .resvUpdate)
 
 /-- `syncReservationScheduleFailed` -/
 def syncScheduleFailed (m : M) (r : Resv) : Res :=
